@@ -996,7 +996,9 @@ def run(tier):
     chk.extra["distribution"] = stats
     chk.extra["traces_validated_against_impl"] = stats["model_checked"]
     chk.extra["disagreements"] = stats["disagreements"]
-    return chk.finish()
+    # with broken Lean obligations nothing is "discharged": report the run as exploration so
+    # that the evidence stays valid and the exit code reflects the violations found
+    return chk.finish(level="proof" if model_ok else "exploration")
 
 
 def replay(path):
